@@ -138,6 +138,61 @@ def validate(ctx, groups, label):
     return rej
 
 
+def compose_ptm1_track(ctx, tracking):
+    import xarray as xr
+    freq = np.round(np.arange(0.04, 0.405, 0.01), 3)
+    dirs = np.arange(0.0, 360.0, 15.0)
+    T, S = 8, 2
+    ff, dd_ = np.meshgrid(freq, dirs, indexing="ij")
+
+    def bump(f0, d0, amp, sf=0.012, sd=18.0):
+        dj = np.abs((dd_ - d0 + 180.0) % 360.0 - 180.0)
+        return amp * np.exp(-0.5 * ((ff - f0) / sf) ** 2 - 0.5 * (dj / sd) ** 2)
+    arr = np.zeros((T, S, freq.size, dirs.size))
+    for t in range(T):
+        for s_ in range(S):
+            arr[t, s_] = (bump(0.07 + 0.01 * t * (1 if s_ == 0 else 0.5), 210.0, 3.0) +            # swell drifting in frequency
+                          bump(0.12, (300.0 + 15.0 * t) % 360.0, 2.0) +                              # swell veering 15 deg per step
+                          bump(0.27 - 0.005 * t, 60.0, 0.8 + 0.1 * s_, sf=0.03, sd=25.0))          # wind sea
+    times = np.datetime64("2021-06-01T00:00:00") + (np.arange(T) * 10800).astype("timedelta64[s]")
+    da = xr.DataArray(arr, coords={"time": times, "site": np.arange(S), "freq": freq, "dir": dirs}, dims=("time", "site", "freq", "dir"), name="efth")
+    mk = lambda v: xr.DataArray(np.full((T, S), v), coords={"time": times, "site": np.arange(S)}, dims=("time", "site"))  # noqa
+    wspd, wdir, dpt = mk(12.0), mk(60.0), mk(500.0)
+    custom = dict(ddpm_sea_max=45, ddpm_swell_max=10, dfp_sea_scaling=4, dfp_swell_source_distance=4.0e5)
+    defaults = dict(ddpm_sea_max=30, ddpm_swell_max=20, dfp_sea_scaling=1, dfp_swell_source_distance=1e6)
+    settings = [custom] + [dict(defaults, **{k: custom[k]}) for k in custom]
+    try:
+        parts = da.spec.partition.ptm1(wspd, wdir, dpt, swells=2)
+        stats = parts.spec.stats(["fp", "dpm"])
+        base = tracking.track_partitions(stats, wspd, **defaults).part_id.values
+    except Exception as ex:  # noqa
+        ctx.violation({"where": "replay", "fn": "ptm1_track", "raised": type(ex).__name__}, "PTM1 + track_partitions raised on the reference series", {"err": str(ex)[:300]})
+        return
+    matter = 0
+    for st in settings:
+        ctx.case(("compose", json.dumps(st, sort_keys=True)), True)
+        try:
+            exp = tracking.track_partitions(stats, wspd, **st)
+            got = da.spec.partition.ptm1_track(wspd, wdir, dpt, swells=2, **st)
+        except Exception as ex:  # noqa
+            ctx.violation({"where": "replay", "fn": "ptm1_track", "raised": type(ex).__name__}, "ptm1_track raised %s" % type(ex).__name__, {"err": str(ex)[:300], "thresholds": st})
+            continue
+        matter += int(not np.array_equal(exp.part_id.values, base))
+        same = (np.array_equal(got.part_id.transpose(*exp.part_id.dims).values, exp.part_id.values)
+                and np.array_equal(got.npart_id.values, exp.npart_id.values)
+                and np.allclose(got.efth.transpose(*parts.dims).values, parts.values, rtol=1e-12, equal_nan=True))
+        if same:
+            ctx.replayed()
+        else:
+            ctx.violation({"where": "replay", "fn": "ptm1_track", "clause": "thresholds-are-the-callers"},
+                          "ptm1_track(%s) does not give the identifiers of track_partitions on the PTM1 statistics with the same thresholds" % st,
+                          {"thresholds": st, "got": got.part_id.transpose(*exp.part_id.dims).values.tolist(), "expected": exp.part_id.values.tolist()})
+    ctx.note("ptm1_track_threshold_settings_that_change_the_ids", matter)
+    if matter < 3:
+        from harness.core import MachineryError
+        raise MachineryError("the ptm1_track reference series is insensitive to the thresholds (%d of 5 settings change the identifiers)" % matter)
+
+
 def run(ctx):
     setup_repo_imports()
     import xarray as xr
@@ -322,6 +377,10 @@ def run(ctx):
     if index:
         k = sorted(index)[0]
         ctx.sample({"kind": "random history validated by TrackingTrace", "hist": index[k][0][:5], "ids": index[k][1]})
+    # ---- 4. the accessor entry point: ptm1_track = Track o PTM1 with the caller's thresholds.  The identifiers it returns must be
+    # those track_partitions gives for the statistics of the PTM1 partitions under the SAME four thresholds (each of which is
+    # shown to matter on this series: with it at its default the identifiers differ)
+    compose_ptm1_track(ctx, tracking)
     # the sea threshold formula itself (closed form) against the library's
     for w in (3.0, 10.0, 25.0):
         for f in (0.08, 0.2):
